@@ -324,3 +324,60 @@ pub fn promotion_choice_position(rng: &mut Rng) -> Pos {
         }
     }
 }
+
+/// A position lost by force inside a two-ply horizon: the side to move has at least two
+/// legal moves and every one of them allows mate in one. (Lone king, sometimes with a pawn
+/// or a knight, against king and two or three heavy pieces.)
+pub fn lost_by_force_position(rng: &mut Rng) -> Option<Pos> {
+    for _ in 0..400 {
+        let mut p = Pos {
+            sq: [EMPTY; 64],
+            white_to_move: rng.chance(1, 2),
+            castle: [false; 4],
+            ep: None,
+            halfmove: 0,
+            fullmove: 70,
+        };
+        let (me, them) = if p.white_to_move { (0, BLACK) } else { (BLACK, 0) };
+        let mut free: Vec<u8> = (0..64).collect();
+        rng.shuffle(&mut free);
+        // the defending king likes the edge
+        let dk = if rng.chance(2, 3) {
+            let e = *rng.pick(&[0i8, 7]);
+            if rng.chance(1, 2) { sq(rng.below(8) as i8, e) } else { sq(e, rng.below(8) as i8) }
+        } else {
+            free[0]
+        };
+        free.retain(|s| *s != dk);
+        p.sq[dk as usize] = KING | me;
+        p.sq[free.pop().unwrap() as usize] = KING | them;
+        for _ in 0..rng.range(2, 3) {
+            p.sq[free.pop().unwrap() as usize] = *rng.pick(&[QUEEN, QUEEN, ROOK]) | them;
+        }
+        if rng.chance(1, 3) {
+            let s = free.pop().unwrap();
+            let k = *rng.pick(&[PAWN, KNIGHT]);
+            if !(k == PAWN && (rank_of(s) == 0 || rank_of(s) == 7)) {
+                p.sq[s as usize] = k | me;
+            }
+        }
+        if !p.is_valid() {
+            continue;
+        }
+        let ms = p.legal_moves();
+        if ms.len() < 2 {
+            continue;
+        }
+        let lost = ms.iter().all(|m| {
+            let q = p.make(m);
+            q.legal_moves().iter().any(|r| {
+                let z = q.make(r);
+                z.in_check() && z.legal_moves().is_empty()
+            })
+        });
+        if lost {
+            return Some(p);
+        }
+    }
+    None
+}
